@@ -10,6 +10,7 @@ import (
 // walkStats counts the movement enumeration.
 type walkStats struct {
 	Seqs, Moves int
+	Errored     int // sequences that ended with the iterator reporting an error (walkAllErr)
 }
 
 var moveNames = []string{"First", "Last", "Next", "Prev"}
@@ -19,6 +20,13 @@ var moveNames = []string{"First", "Last", "Next", "Prev"}
 // after every move with a cursor over the sorted list `want`. Returns the first
 // disagreement (with the move sequence) or "".
 func walkAll(newIter func() iterator.Iterator, want []model.Pair, cmp model.Cmp, seeks [][]byte, depth int, st *walkStats) string {
+	return walkAllErr(newIter, want, cmp, seeks, depth, st, false)
+}
+
+// walkAllErr: with errOK, a move after which the iterator reports an error ends the sequence
+// (an iterator over a failing source may stop; it may not answer wrongly while reporting
+// no error).
+func walkAllErr(newIter func() iterator.Iterator, want []model.Pair, cmp model.Cmp, seeks [][]byte, depth int, st *walkStats, errOK bool) string {
 	nm := 4 + len(seeks)
 	seq := make([]int, 0, depth)
 	var rec func() string
@@ -43,6 +51,13 @@ func walkAll(newIter func() iterator.Iterator, want []model.Pair, cmp model.Cmp,
 				got, exp = it.Seek(k), cur.Seek(k)
 			}
 			st.Moves++
+			if errOK && it.Error() != nil {
+				st.Errored++
+				if got || it.Valid() {
+					return fmt.Sprintf("moves %s: move %d reports error %v but returned %v, Valid()=%v", descMoves(seq[:i+1], seeks), i, it.Error(), got, it.Valid())
+				}
+				return ""
+			}
 			bad := ""
 			switch {
 			case got != exp:
